@@ -222,10 +222,17 @@ def plan(exp, tier):
     shapes = [VEC['Vec2'], VEC['Vec3'], VEC['Vec4'], VEC['Extent2'], VEC['Extent3']]
     u = vec_unit(exp, 'c16', shapes)
     veccore.add_conversions(u, only=('Vec2', 'Vec3', 'Vec4', 'Extent2', 'Extent3'))
+    import opscore
+    opscore.add_traits(u, ('Clamp',))
+    opscore.add_float_impls(u, ('Clamp',))
     for nm in ('Vec2', 'Vec3'):
         veccore.add_spatial_basic(u, VEC[nm])
+        G.add_vec_minmax(u, VEC[nm])
     for n in (2, 3):
         B = G.Box(n)
+        # the box / rectangle API of the bounding shapes (C13 contracts), so that a change which starts calling it is still decided
+        G.add_box(u, B)
+        G.add_rect(u, B)
         hdr = 'impl<P, E> From<(%s<P>, %s<E>)> for %s<P, E>' % (B.vec.name, B.ext.name, B.rect)
         u.take_impl(P, hdr, {'from': C(ensures=['res.%s == t.0.%s' % (x, x) for x in B.ax] + ['res.%s == t.1.%s' % (x, x) for x in B.ex])},
                     mode='G', tparams=())
@@ -236,7 +243,7 @@ def plan(exp, tier):
     for lm in lem.values():
         u.add_root(lm.verus_text('C16'))
     p.lemmas += list(lem.values())
-    p.add_unit('c16', u, ['vec', 'geom'])
+    p.add_unit('c16', u, ['ops', 'vec', 'geom'])
     p.not_decided += ['LineSegment into_range / From<Range> and as_ (casts: C20)',
                       'the degenerate-segment branch (length approximately zero) is only contracted (returns start)',
                       'ray-triangle: "non-parallel" is the code\'s |a| >= epsilon test']
